@@ -41,6 +41,14 @@ def rich_child(seq, alg):
     return c
 
 
+def noncanon(envelope: bytes, how: str) -> bytes:
+    """the same envelope as another legal CBOR encoder writes it: indefinite-length top-level map / two-byte map head"""
+    assert envelope[:2] == b"\xd8\x6b" and 0xA0 <= envelope[2] <= 0xB7, envelope[:3].hex()
+    if how == "indef":
+        return envelope[:2] + b"\xbf" + envelope[3:] + b"\xff"
+    return envelope[:2] + b"\xb8" + bytes([envelope[2] - 0xA0]) + envelope[3:]
+
+
 def find_params(data):
     """-> dict of parameters (code -> Item, with the byte string they live in) of the first override-parameters in suit-install."""
     env, raw = impl.envelope_members(data)
@@ -56,13 +64,13 @@ def file_cases(tier):
     lens = LENS_T
     out = []
     i = 0
-    for field, forms in (("digest", ["file", "file_direct", "envelope-path", "envelope-inline", "raw"]),
-                         ("size", ["file", "file_direct", "file_direct-nl", "envelope-path", "envelope-inline", "raw"]),
+    for field, forms in (("digest", ["file", "file_direct", "envelope-path", "envelope-inline", "raw", "envelope-path+indef", "envelope-path+longhead"]),
+                         ("size", ["file", "file_direct", "file_direct-nl", "envelope-path", "envelope-inline", "raw", "envelope-path+indef", "envelope-path+longhead"]),
                          ("payload", ["path", "inline-envelope", "hex-lookalike"]),
-                         ("dependency", ["path", "inline-envelope"])):
+                         ("dependency", ["path", "inline-envelope", "path+indef", "path+longhead"])):
         for form in forms:
             for alg in (gen.ALG5 if field == "digest" else gen.ALG5[:1]):
-                for L in (lens if "envelope" not in form and form != "raw" else [0]):
+                for L in (lens if "envelope" not in form and form != "raw" and "+" not in form else [0]):
                     for ni, name in enumerate(NAMES if form in ("file", "file_direct", "file_direct-nl", "path", "envelope-path") else [NAMES[0]]):
                         for rel in (False, True):
                             out.append({"field": field, "form": form, "alg": alg, "L": L, "name": ni, "rel": rel, "i": i})
@@ -76,6 +84,7 @@ def file_cases(tier):
 
 def run_file(case, agg):
     field, form, alg, L, rel = case["field"], case["form"], case["alg"], case["L"], case["rel"]
+    form, _, recode = form.partition("+")       # +indef / +longhead: the referenced envelope file was written by another CBOR encoder
     name = NAMES[case["name"]]
     key = h8("c05", {k: case.get(k) for k in ("field", "form", "alg", "L", "name", "rel", "link")})
     algc = registry.HASH_ALGS[alg]
@@ -109,6 +118,8 @@ def run_file(case, agg):
         os.chdir(root)
         try:
             child_bytes = impl.tool_create(child)
+            if recode:
+                child_bytes = noncanon(child_bytes, recode)
             want = None
             params = {}
             envx = {}
@@ -167,7 +178,7 @@ def run_file(case, agg):
                     envx[member] = {"#x": "abcdef"}
                     want = bytes.fromhex("abcdef")
             desc = gen.minimal(man={"suit-install": [{"suit-directive-override-parameters": {"suit-parameter-uri": "#x", **params}}]}, env=envx)
-            label = f"{field} via {form}, alg {alg}, file {name!r} ({'relative' if rel else 'absolute'}{', a symbolic link (' + case['link'] + ')' if case.get('link') else ''}), length {L}"
+            label = f"{field} via {form}{' (file re-encoded: ' + recode + ')' if recode else ''}, alg {alg}, file {name!r} ({'relative' if rel else 'absolute'}{', a symbolic link (' + case['link'] + ')' if case.get('link') else ''}), length {L}"
             try:
                 if seed_slice(case["i"], 23):
                     out = impl.tool_create_main(desc, root, "yaml" if case["i"] % 2 else "json")
@@ -297,12 +308,19 @@ CHANGE_FORMS = ["digest-file", "size-file", "digest-file_direct", "payload-path"
 
 
 def change_cases(tier):
-    return [{"form": f, "order": o} for f in CHANGE_FORMS for o in ("grow", "shrink")]
+    # same-length: other content of the SAME length, and the file keeps its modification time (a same-second rewrite,
+    # cp -p / rsync -t, clamped reproducible-build times) - nothing but the bytes tells the two files apart
+    return [{"form": f, "order": o} for f in CHANGE_FORMS for o in ("grow", "shrink", "same-length-same-mtime", "same-length")
+            if not (o.startswith("same-length") and "size" in f)]
 
 
 def run_change(case, agg):
     form = case["form"]
     a, b = (content(40, 1), content(300, 2)) if case["order"] == "grow" else (content(300, 2), content(40, 1))
+    if case["order"].startswith("same-length"):
+        a, b = content(300, 1), content(300, 2)
+        if form == "digest-file_direct":
+            a, b = a[:32], b[:32]
     key = h8("c05c", case)
     label = f"two creations in one process, {form}, referenced file changed in between ({case['order']})"
     with fresh_dir("c05c") as root:
@@ -337,12 +355,17 @@ def run_change(case, agg):
         def write(data):
             if form in ("dependency-path", "digest-envelope-path"):
                 # the file is an envelope; vary its content through a payload
-                data = impl.tool_create(gen.child_env(seq=6 + len(data), extra={"suit-integrated-payloads": {"#p": data.hex()}}))
+                data = impl.tool_create(gen.child_env(seq=6 + len(data) + (data[0] if data else 0), extra={"suit-integrated-payloads": {"#p": data.hex()}}))
             open(f, "wb").write(data)
         try:
             write(a)
+            st = os.stat(f)
             first = impl.tool_create(make_desc())
             write(b)
+            if case["order"] == "same-length-same-mtime":
+                os.utime(f, ns=(st.st_atime_ns, st.st_mtime_ns))
+                if os.stat(f).st_size != st.st_size:
+                    raise RuntimeError("harness: the rewritten file has another length")
             second = impl.tool_create_main(make_desc(), root, "json")
             # reference for the second creation: a fresh interpreter that never saw the first content
             import subprocess, sys, json as _json
